@@ -21,7 +21,7 @@ RULE = ("one program = one traced computation (generated programs over the full 
 
 def main():
     tier = common.tier()
-    nshards, n = (8, 60) if tier == "quick" else (32, 700)
+    nshards, n = (16, 200) if tier == "quick" else (32, 2000)
     jobs = [dict(seed="%d/%s/%d" % (common.seed(), PROP, s), n=n, scripts=(2 if tier == "quick" else 6)) for s in range(nshards)]
     R = common.Run(PROP, "translation_validation", RULE)
     for job, res, err in shard.run_jobs("vf.checks.C10", "worker", jobs, timeout=3600, nproc=16):
